@@ -122,7 +122,7 @@ func runC07(matchFile, exclFile string, reserved map[string]map[string]bool, b *
 			writers = []wfT{
 				{"json", restlicodec.NewCompactJsonWriterWithExcludedFields(spec), true},
 				{"pretty", restlicodec.NewPrettyJsonWriterWithExcludedFields(spec), true},
-			{"header", restlicodec.NewRor2HeaderWriterWithExcludedFields(spec), false},
+				{"header", restlicodec.NewRor2HeaderWriterWithExcludedFields(spec), false},
 			}
 		}
 		for _, wf := range writers {
@@ -179,7 +179,9 @@ func runC07(matchFile, exclFile string, reserved map[string]map[string]bool, b *
 			name string
 			mk   func() (restlicodec.Reader, error)
 		}{
-			{"json", func() (restlicodec.Reader, error) { return restlicodec.NewJsonReaderWithExcludedFields([]byte(doc), spec, 0) }},
+			{"json", func() (restlicodec.Reader, error) {
+				return restlicodec.NewJsonReaderWithExcludedFields([]byte(doc), spec, 0)
+			}},
 			{"ror2", func() (restlicodec.Reader, error) { return restlicodec.NewRor2ReaderWithExcludedFields(rdoc, spec, 0) }},
 			{"untyped", func() (restlicodec.Reader, error) {
 				return restlicodec.NewInterfaceReaderWithExcludedFields(b.PlainOf(row.Json), spec, 0), nil
